@@ -62,7 +62,8 @@ ASSUMPTIONS = [
     "stub outputs are dyadic floats / small ints, so float32 round-trips are exact",
     "raise demands (see RAISE_DEMANDS): none.  For an image cell that cannot be opened the oracle accepts a raise OR one "
     "image per row with row i = forward_embed's output for the i-th image (a placeholder image is accepted, a dropped row "
-    "is not); such cases are not compared with the Coq model",
+    "is not); the Coq model of the default retrieval (raise at the first unopenable path) is compared when the "
+    "implementation raised and not when it returned normally",
     "'called only with lists of Python strings (never a float or None)' is a typing fact of the Coq model "
     "(arg_lists : list (list string)), not a theorem about mapper.py; for the real code it is OBSERVED by this harness "
     "on every run: the stubs record the raw argument objects and the oracle requires type(args) is list and "
@@ -140,7 +141,8 @@ ERROR_PATHS = [
     ("mapper.py: no clean-up of the embedder output (NaN / inf must arrive unchanged)",
      "nonfinite:nan|inf|-inf x batched/unbatched x float32/float64/float16", "rows:* (NaN-aware exact comparison)"),
     ("mapper.py: embedder is None -> np.stack(ser.values).astype(dtype)", "n/a: plain `embedding` stype, property C01", "-"),
-    ("image_embedder.py: Image.open(path) raises for a missing / unreadable / non-image path (no try/except)",
+    ("image_embedder.py: Image.open(path) raises for a missing / unreadable / non-image path (no try/except); modelled: "
+     "Model/Embedders.v forward_retrieve / image_call / emb_forward_raising, theorems c16_image_*",
      "unopenable: nonexistent / directory / nonimage / missing cell at first / middle / last row",
      "unopenable-image:row-not-covered:<kind>, result-unreadable"),
     ("image_embedder.py: image.convert('RGB')", "non_rgb_file (grey-scale and RGBA PNGs)", "image-mode, image-embed-args"),
@@ -1253,6 +1255,8 @@ def tok_out_literal(col, chunk):
 
 
 def table_literal(col, chunks):
+    if col.get("real_images"):
+        return "[]"          # real-image columns are evaluated through c16_img_col (files table), not a call table
     ents = []
     for ch in chunks:
         if col["stype"] == "text_tokenized":
@@ -1268,12 +1272,24 @@ def coq_term(case, obs):
     if "cols" not in obs:
         return None
     # the model is stateless: every frame of a history is an independent evaluation ("equals a fresh mapper")
-    if any(c.get("bad_cell") for c in case["cols"]):
-        return None          # a raising retrieval is outside the (total) callable of the model; judged by the oracle
     parts = []
     for v, o in zip(views(case), [obs] + list(obs.get("more", []))):
         parts.append(coq_term_frame(v, o))
+    parts = [p_ for p_ in parts if p_]
+    if not parts:
+        return None
     return "(" + " && ".join(parts) + ")"
+
+
+def files_literal(col):
+    """path -> id its pixels encode (None = cannot be opened), for every distinct string of the column."""
+    ents = []
+    for s_ in sorted(set(rendered(col))):
+        base = os.path.basename(s_)
+        ok = os.path.dirname(s_) == img_dir() and base.startswith("img") and base.endswith(".png") \
+            and base[3:-4].isdigit() and int(base[3:-4]) < N_IMAGES
+        ents.append(f"({cstr(s_)}, {'Some ' + C.cnat(int(base[3:-4])) if ok else 'None'})")
+    return "[" + "; ".join(ents) + "]"
 
 
 def coq_term_frame(case, obs):
@@ -1306,6 +1322,12 @@ def coq_term_frame(case, obs):
             cfgs = C.clist(same, lambda c: f"({cstr(c['name'])}, ({table_literal(c, tabs[c['name']])}, {bsl(c)}))")
         for c in same:
             rec = obs["cols"][c["name"]]
+            any_bad = any(x.get("bad_cell") for x in case["cols"])
+            raised = "exc" in obs or "exc" in rec
+            if any_bad and not (c.get("bad_cell") and raised):
+                # the model mirrors the current code's raise for an unopenable cell; a conversion that returned
+                # normally there is judged by the oracle only, and the other columns of an aborted frame say nothing
+                continue
             got = calls_of[c["name"]]
             if got is None:
                 got = rec["calls"]
@@ -1322,5 +1344,13 @@ def coq_term_frame(case, obs):
                 res = "None" if failed else \
                     f"(Some ({C.cnat(rec['num_rows'])}, " \
                     f"{C.clist(rec['rows'], lambda v: cvec(v, EMB_SCALE[c.get('emb_dtype', 'float32')]))}))"
+                if c.get("real_images"):
+                    # the library's default retrieval + the user's forward_embed (Model/Embedders.v ImageRetrieval)
+                    terms.append(f"c16_emb_obs_eqb (c16_img_col {files_literal(c)} {C.cnat(c['w'])} "
+                                 f"{C.cz(EMB_SCALE[c.get('emb_dtype', 'float32')])} {bsl(c)} {dt} {raw}) "
+                                 f"(Some ({calls}, {res}))")
+                    continue
                 terms.append(f"c16_emb_obs_eqb (c16_emb_col {cfgs} {cstr(c['name'])} {dt} {raw}) (Some ({calls}, {res}))")
+    if not terms:
+        return None
     return "(" + " && ".join(terms) + ")"
